@@ -23,6 +23,11 @@ def run(chk, tier):
     import bufsize
     nbs = bufsize.run(chk, P, units=('bitmap.c',))
     chk.floor("R-BUFSIZE", "heap buffers handed to producers", nbs, 2)
+    chk.rule("R-WORDIDX", "every word index into a bitmap's ulongs[] is below its word count on every path (abstract interpretation over difference-bound matrices with trace partitioning; "
+             "helpers' post-conditions trusted; five functions frozen out of scope with the reason)")
+    import zone
+    nz_ok, nz_f, nz_out = zone.run(chk, P)
+    chk.floor("R-WORDIDX", "word accesses proved in range", nz_ok, 60)
     chk.rule("R-NUL", "a scanner never hands p+k to a string function unless p[0..k-1] are known non-NUL, and a character search from p+1 does not skip an occurrence at p[0] (p is the previous match or p[0] was compared)")
     nn = bitmaprules.nul_discipline(chk, P, "bitmap.c", ["hwloc_bitmap_sscanf", "hwloc_bitmap_list_sscanf", "hwloc_bitmap_taskset_sscanf"])
     # the repaired parsers contain no p+k search any more: the rule must still prove on every run that it can fire (positive example)
@@ -40,7 +45,8 @@ def run(chk, tier):
         from prog import returns, cval
         vals = [cval(r["c"][0]) for r in returns(f) if r.get("c")]
         chk.inst("R-RET", f, "returns-0-or-minus-1", all(v in (0, -1) for v in vals) and len(vals) >= 2, "every return expression is the constant 0 or -1 (%s)" % vals)
-    chk.decided += ['the asprintf variants hand the allocated size (len+1) to the snprintf variant',
+    chk.decided += ["word indexes into ulongs[] stay below the word count in every bitmap function but the five listed as out of scope",
+                    'the asprintf variants hand the allocated size (len+1) to the snprintf variant',
                     "parsing defines the destination first and never starts a string function past a terminator (scoped sites); returns 0 or -1",
                     "snprintf-style functions never write outside [buf,buf+buflen), NUL-terminate when buflen>0, return the untruncated length (structural: cursor typestate)",
                     "asprintf produces the same text and length as snprintf (call shape)"]
